@@ -10,6 +10,9 @@ import (
 	"math"
 	"math/big"
 	"math/rand"
+	"runtime"
+	"sort"
+	"sync"
 	"time"
 
 	"github.com/yandex/pandora/core"
@@ -465,6 +468,83 @@ var seeds = []Profile{
 	{Kind: "once", Times: 100},
 }
 
+// sharedStep: a step profile shared by several instances (the default) is drawn by concurrent
+// callers. However the callers interleave, the multiset of token times and the finish time
+// must be those of the sequential profile: the succession of one const profile per level.
+func sharedStep(res *vkit.Result, p Profile, callers, trials int) {
+	t0 := time.Unix(1700000000, 0)
+	ref := schedule.NewStep(p.From, p.To, p.Step, time.Duration(p.Duration))
+	ref.Start(t0)
+	var want []int64
+	var wantFinish int64
+	for {
+		t, ok := ref.Next()
+		if !ok {
+			wantFinish = t.Sub(t0).Nanoseconds()
+			break
+		}
+		want = append(want, t.Sub(t0).Nanoseconds())
+	}
+	c := map[string]any{"profile": p, "concurrent_callers": callers}
+	for trial := 0; trial < trials; trial++ {
+		s := schedule.NewStep(p.From, p.To, p.Step, time.Duration(p.Duration))
+		s.Start(t0)
+		got := make([][]int64, callers)
+		fin := make([]int64, callers)
+		var wg sync.WaitGroup
+		start := make(chan struct{})
+		for g := 0; g < callers; g++ {
+			wg.Add(1)
+			go func(g int) {
+				defer wg.Done()
+				<-start
+				for {
+					t, ok := s.Next()
+					if !ok {
+						fin[g] = t.Sub(t0).Nanoseconds()
+						return
+					}
+					got[g] = append(got[g], t.Sub(t0).Nanoseconds())
+					if len(got[g])%3 == 0 {
+						runtime.Gosched()
+					}
+				}
+			}(g)
+		}
+		close(start)
+		wg.Wait()
+		var all []int64
+		for _, l := range got {
+			all = append(all, l...)
+		}
+		sort.Slice(all, func(i, j int) bool { return all[i] < all[j] })
+		bad := len(all) != len(want)
+		for i := 0; !bad && i < len(all); i++ {
+			bad = all[i] != want[i]
+		}
+		if bad {
+			res.Violate("C01/step/shared/token-times", fmt.Sprintf("%d concurrent callers drew operations at %v (ns after start), the profile is %v", callers, head(all, 12), head(want, 12)), c)
+			break
+		}
+		for g := range fin {
+			if fin[g] != wantFinish {
+				res.Violate("C01/step/shared/finish", fmt.Sprintf("a caller was told the exhausted profile finished at +%dns, the profile ends at +%dns", fin[g], wantFinish), c)
+				trial = trials
+				break
+			}
+		}
+		res.Count("shared_step_drains", 1)
+	}
+	res.Eval(vkit.JSON(c), len(want) >= 2)
+}
+
+func head(xs []int64, n int) []int64 {
+	if len(xs) > n {
+		return xs[:n]
+	}
+	return xs
+}
+
 func main() {
 	vkit.Fs()
 	res := vkit.NewResult("const/line/step/once profiles generated from a rate grid ∪ random rates and a duration grid ∪ random ms/ns-granular durations, built directly and through the config plugin path, drained completely; distinct = distinct parameter tuples; non-trivial = at least 2 tokens emitted")
@@ -487,6 +567,18 @@ func main() {
 			}
 		}
 		check(res, p, rng)
+	}
+	// step profiles shared by concurrent callers (levels that are empty or tiny make hand-offs frequent)
+	for _, p := range []Profile{
+		{Kind: "step", From: 0, To: 2, Step: 1, Duration: 1e9},
+		{Kind: "step", From: 0, To: 3, Step: 1, Duration: 5e8},
+		{Kind: "step", From: 0.5, To: 2.5, Step: 1, Duration: 1e9},
+		{Kind: "step", From: 0, To: 0.9, Step: 1, Duration: 1e9},
+		{Kind: "step", From: 1, To: 40, Step: 13, Duration: 1e8},
+	} {
+		for _, callers := range []int{2, 4, 8} {
+			sharedStep(res, p, callers, vkit.N(700, 20000))
+		}
 	}
 	if res.Counter("profiles_fractional_seconds") < 10 || res.Counter("profiles_line") < 10 {
 		res.Inconclusive(true, "too few fractional-second or line profiles judged")
